@@ -56,6 +56,7 @@ struct Model {
   Reader reader = RDouble;
   uint64_t n_lo = 0, n_hi = UINT64_MAX;  // bounds on the number of elements; every observation must fit, and tightens them
   std::function<Expect(uint64_t)> at;    // closed form (may be empty)
+  std::vector<std::string> words;        // RText: the words of the text
   std::vector<std::string> seg;          // RSegment: expected bytes per element
   std::vector<bool> seg_term;            //           element is zero terminated (string) or the open tail (character vector)
   std::map<uint64_t, uint64_t> seen;     // position -> bit pattern of the element when it was first read
@@ -128,6 +129,42 @@ static void observe_absent(Ctx &c, Model &M, const Live &l, const char *how) {
   if (M.n_hi > p) M.n_hi = p;
 }
 
+// Text argument iterator: the element that was just read as double is read once more with another target type, one it fits
+// or one it does not fit (300 as uint8, 1e300 as float). Only types whose conversion either refuses the word or consumes
+// exactly the characters the double conversion consumed are used (integer types for plain decimal integers, float for the
+// rest), so whatever the answer, the iterator has to serve the same elements afterwards — which the model checks with the
+// calls that follow (the word is deliberately not read as double again here). No draw of its own: the choice is taken from
+// the hash of the draws so far, committed inputs keep their decoding.
+static void probe_text(Ctx &c, Model &M, Live &l, const mpt::value *v) {
+  uint64_t p = l.pos;
+  if (p >= M.words.size()) return;
+  unsigned h = (unsigned)(c.hash() >> 9);
+  if (!(h & 3)) return;  // one read in four stays a plain read
+  const std::string &w = M.words[p];
+  size_t i = (w[0] == '+' || w[0] == '-') ? 1 : 0;
+  bool integer = i < w.size() && (w[i] != '0' || i + 1 == w.size());
+  for (size_t k = i; k < w.size(); k++) if (w[k] < '0' || w[k] > '9') integer = false;
+  char type = integer ? "ynqiuf"[(h >> 2) % 6] : 'f';
+  double val = M.at(p).v;
+  union { uint8_t y; int16_t n; uint16_t q; int32_t i; uint32_t u; float f; unsigned char raw[16]; } t;
+  memset(&t, 0xA5, sizeof t);
+  int rc = mpt_value_convert(v, (uintptr_t)type, &t);
+  c.logf("  #%d   again as '%c': %d", l.id, type, rc);
+  if (rc < 0) { c.label("text:probe-refused"); return; }
+  c.label("text:probe-accepted");
+  bool fits = false, same = true;
+  switch (type) {
+    case 'y': fits = val >= 0 && val <= 255; same = t.y == val; break;
+    case 'n': fits = val >= -32768 && val <= 32767; same = t.n == val; break;
+    case 'q': fits = val >= 0 && val <= 65535; same = t.q == val; break;
+    case 'i': fits = val >= -2147483648.0 && val <= 2147483647.0; same = t.i == val; break;
+    case 'u': fits = val >= 0 && val <= 4294967295.0; same = t.u == val; break;
+    default: fits = std::fabs(val) <= FLT_MAX && (val == 0 || std::fabs(val) >= FLT_MIN); same = t.f == (float)val; break;
+  }
+  // what an accepted conversion of a number that does not fit stores is C07's business
+  if (fits) VP_CHECK(c, same, "probe-value", "%s #%d: element %llu \"%s\" read as '%c' is accepted (%d) but stores a different number", M.what.c_str(), l.id, (unsigned long long)p, w.c_str(), type, rc);
+}
+
 // read the current element: value() and conversion to double / comparison of the text segment
 static void op_value(Ctx &c, Model &M, Live &l) {
   const mpt::value *v = iter_value(l.it);
@@ -169,6 +206,7 @@ static void op_value(Ctx &c, Model &M, Live &l) {
     VP_CHECK(c, bits(x) != kSentinel, "value-past-end", "%s #%d: reading at position %llu neither delivers a value nor reports (value() non-NULL, mpt_value_convert = %d, target untouched)",
              M.what.c_str(), l.id, (unsigned long long)l.pos, rc);
     observe_present(c, M, l, x, true);
+    probe_text(c, M, l, v);
     return;
   }
   if (rc < 0 && M.lenient) { l.dead = true; return; }
@@ -783,6 +821,7 @@ static void run_text(Ctx &c) {
     if (x.text[0] == '0' && x.text.size() > 1 && (x.text[1] == 'x')) x = mknum("16", 0);
     t += (k ? (c.chance(40) ? "  " : " ") : (c.chance(24) ? " " : "")) + x.text;
     vals.push_back(x.val);
+    M.words.push_back(x.text);
   }
   const char *sep = c.flip() ? 0 : " ";
   char *heap = (char *)malloc(t.size() + 1);
@@ -889,7 +928,8 @@ static Target t = {
     "dubious (zero count, 2^32 count, non-finite or reversed bounds, factor <= 0), mutated (1-3 character edits) and malformed descriptions) | mpt_iterator_linear | "
     "mpt_iterator_boundary | mpt_iterator_values | mpt_iterator_poly | mpt_iterator_profile over a drawn grid | mpt_iterator_string | mpt_meta_buffer | mpt_meta_arguments; "
     "counts 0,1,2,3,.. and 2^32-1, bounds incl. 1e300, denormals, inf, nan; then a drawn interleaving (<= 160 calls) of value / advance / value+advance / reset / clone / "
-    "mpt_iterator_consume / documented loop over the source and up to 3 clones, closed by walk-to-end, reset, second walk and two reads/advances past the end; "
+    "mpt_iterator_consume / documented loop over the source and up to 3 clones (text argument iterator: three reads in four are followed by a second read of the same element "
+    "with another target type, fitting or not, before the advance), closed by walk-to-end, reset, second walk and two reads/advances past the end; "
     "mpt_values_linear / mpt_values_bound on strided targets. non-trivial: a source with at least one element was walked to its end and elements were replayed after a reset or "
     "in a clone, a malformed description was refused, or a strided fill of >= 3 points was checked; distinct by hash of the draw sequence.",
     run,
